@@ -189,6 +189,18 @@ impl<'a> Transaction<'a> {
     }
 }
 
+#[cfg(multiqueue2_verif)]
+impl CountedIndex {
+    /// Raw counter, read without a scheduling point (snapshots only)
+    pub fn verif_raw(&self) -> usize {
+        self.val.raw()
+    }
+
+    pub fn verif_addr(&self) -> usize {
+        &self.val as *const AtomicUsize as usize
+    }
+}
+
 unsafe impl Send for CountedIndex {}
 unsafe impl Sync for CountedIndex {}
 
